@@ -82,9 +82,12 @@ type StreamRec struct {
 	WireS2C []string `json:"wire_s2c,omitempty"`
 	// ConnLeftOpen: the generated handler returned (the service method failed after the upgrade) without closing
 	// the hijacked connection; the loopback server then closes it, as the peer would be left hanging otherwise.
-	ConnLeftOpen bool     `json:"conn_left_open,omitempty"`
-	Watchdog     string   `json:"watchdog,omitempty"` // non-empty: the watchdog fired (what was pending)
-	Steps        []string `json:"steps,omitempty"`    // interleaving of the four streams' events
+	ConnLeftOpen bool   `json:"conn_left_open,omitempty"`
+	Watchdog     string `json:"watchdog,omitempty"` // non-empty: the watchdog fired (what was pending)
+	// Deadlock is set when both ends were blocked in a receive with nothing in flight (a logical state, not a
+	// timeout): the description of that state
+	Deadlock string   `json:"deadlock,omitempty"`
+	Steps    []string `json:"steps,omitempty"` // interleaving of the four streams' events
 }
 
 // wsState is the live state of a streaming exchange.
@@ -94,6 +97,12 @@ type wsState struct {
 	handlerIn   atomic.Bool   // the server handler was entered
 	handlerDone chan struct{} // closed when the server handler returned
 	tap         *tapConn      // the hijacked server connection (nil until the upgrade)
+	ctap        *tapConn      // the client's end of the socket
+	reqBytes    atomic.Int64  // bytes of the handshake request (read by net/http before the server's tap exists)
+	// what each end is blocked in ("" = not blocked in a receive): both ends waiting to receive while every byte
+	// written by either end has been read by the other is a deadlock, decided on that logical state
+	clientWait atomic.Value // string
+	stubWait   atomic.Value // string
 }
 
 const (
@@ -151,6 +160,8 @@ type tapConn struct {
 	mu       sync.Mutex
 	in, outb []byte
 	closed   bool
+	nIn      atomic.Int64 // bytes read from the socket
+	nOut     atomic.Int64 // bytes written to the socket
 }
 
 func (t *tapConn) Close() error {
@@ -163,6 +174,7 @@ func (t *tapConn) Close() error {
 func (t *tapConn) Read(p []byte) (int, error) {
 	n, err := t.Conn.Read(p)
 	if n > 0 {
+		t.nIn.Add(int64(n))
 		t.mu.Lock()
 		if len(t.in) < 8<<20 {
 			t.in = append(t.in, p[:n]...)
@@ -175,6 +187,7 @@ func (t *tapConn) Read(p []byte) (int, error) {
 func (t *tapConn) Write(p []byte) (int, error) {
 	n, err := t.Conn.Write(p)
 	if n > 0 {
+		t.nOut.Add(int64(n))
 		t.mu.Lock()
 		if len(t.outb) < 8<<20 {
 			t.outb = append(t.outb, p[:n]...)
@@ -386,7 +399,9 @@ func (h *Hooks) serveStream(ex *Exchange, stream reflect.Value, oc *Outcome, out
 	}
 	recv, send := stream.MethodByName("Recv"), stream.MethodByName("Send")
 	recvOne := func() (bool, error) {
+		ex.ws.stubWait.Store("Recv")
 		r := recv.Call(nil)
+		ex.ws.stubWait.Store("")
 		if err := asErr(r[1]); err != nil {
 			ex.sUpd("stub_recv_end", func(s *StreamRec) { s.StubEnd, s.StubEndName = errText(err), svcErrName(err) })
 			return false, err
@@ -555,13 +570,22 @@ func (dr *Driver) dialWS(st *svcState, ex *Exchange, ctx context.Context, rawurl
 	d := &websocket.Dialer{HandshakeTimeout: streamWatch, NetDialContext: func(ctx context.Context, network, addr string) (net.Conn, error) {
 		c, err := (&net.Dialer{}).DialContext(ctx, network, addr)
 		if err == nil {
+			t := &tapConn{Conn: c}
 			ex.mu.Lock()
 			ex.ws.conns = append(ex.ws.conns, c)
+			ex.ws.ctap = t
 			ex.mu.Unlock()
+			return t, nil
 		}
 		return c, err
 	}}
 	conn, resp, err := d.DialContext(ctx, u.String(), hh)
+	ex.mu.Lock()
+	if ct := ex.ws.ctap; ct != nil {
+		// the client cannot have written anything but the handshake request yet
+		ex.ws.reqBytes.Store(ct.nOut.Load())
+	}
+	ex.mu.Unlock()
 	if resp != nil {
 		var body []byte
 		if resp.Body != nil && err != nil {
@@ -630,17 +654,66 @@ func (dr *Driver) runStream(st *svcState, ex *Exchange, ctx context.Context) {
 			c.Close()
 		}
 	}
-	// wait waits for ch until the deadline; past it the connections are torn down and ch gets a last chance
+	// quiescent reports the logical deadlock state: both ends blocked in a receive and every byte either end wrote
+	// has been read by the other end (nothing in flight, nobody left to send)
+	quiescent := func() (bool, string) {
+		cw, _ := ex.ws.clientWait.Load().(string)
+		sw, _ := ex.ws.stubWait.Load().(string)
+		if cw == "" || sw == "" {
+			return false, ""
+		}
+		ex.mu.Lock()
+		ct, st := ex.ws.ctap, ex.ws.tap
+		ex.mu.Unlock()
+		if ct == nil || st == nil {
+			return false, ""
+		}
+		if ct.nOut.Load()-ex.ws.reqBytes.Load() != st.nIn.Load() || st.nOut.Load() != ct.nIn.Load() {
+			return false, ""
+		}
+		return true, fmt.Sprintf("client blocked in %s, service method blocked in %s, %d bytes client->server and %d bytes server->client all read", cw, sw, ct.nOut.Load(), st.nOut.Load())
+	}
+	// wait waits for ch until the deadline; past it the connections are torn down and ch gets a last chance.
+	// While waiting, the deadlock state is sampled: it must hold on 60 consecutive samples (the state is logical,
+	// the sampling only gives the ends time to leave it if they can)
 	wait := func(ch <-chan struct{}, what string) {
 		t := time.NewTimer(time.Until(deadline))
 		defer t.Stop()
-		select {
-		case <-ch:
-		case <-t.C:
-			fired(what)
+		tick := time.NewTicker(5 * time.Millisecond)
+		defer tick.Stop()
+		stable, last := 0, ""
+		for {
 			select {
 			case <-ch:
-			case <-time.After(5 * time.Second):
+				return
+			case <-tick.C:
+				if q, desc := quiescent(); q && (last == "" || desc == last) {
+					stable, last = stable+1, desc
+				} else {
+					stable, last = 0, ""
+				}
+				if stable >= 60 {
+					ex.sUpd("deadlock", func(r *StreamRec) { r.Deadlock = last })
+					cancel()
+					ex.mu.Lock()
+					conns := append([]net.Conn(nil), ex.ws.conns...)
+					ex.mu.Unlock()
+					for _, c := range conns {
+						c.Close()
+					}
+					select {
+					case <-ch:
+					case <-time.After(5 * time.Second):
+					}
+					return
+				}
+			case <-t.C:
+				fired(what)
+				select {
+				case <-ch:
+				case <-time.After(5 * time.Second):
+				}
+				return
 			}
 		}
 	}
@@ -720,7 +793,9 @@ func (dr *Driver) genStreamClient(st *svcState, ex *Exchange, ctx context.Contex
 		return true
 	}
 	recvOne := func() bool {
+		ex.ws.clientWait.Store("Recv")
 		r := recv.Call(nil)
+		ex.ws.clientWait.Store("")
 		if err := asErr(r[1]); err != nil {
 			ex.sUpd("client_recv_end", func(s *StreamRec) { s.RecvEnd, s.RecvEndName = errText(err), svcErrName(err) })
 			return false
@@ -764,7 +839,9 @@ func (dr *Driver) genStreamClient(st *svcState, ex *Exchange, ctx context.Contex
 			}
 		}
 		if car := sv.MethodByName("CloseAndRecv"); car.IsValid() {
+			ex.ws.clientWait.Store("CloseAndRecv")
 			r := car.Call(nil)
+			ex.ws.clientWait.Store("")
 			if err := asErr(r[1]); err != nil {
 				ex.sUpd("client_close_err", func(s *StreamRec) { s.CloseErr = errText(err) })
 				co.Err = errInfo(err)
